@@ -227,6 +227,7 @@ var c11Ops = []*c11OpSpec{
 	{"Xor", pOpXor, "TTG", true, true},
 	{"Mod", pOpMod, "TTG", true, true},
 	{"Concat", pOpConcat, "TTG", true, true},
+	{"ConcatRes", pOpConcatRes, "TTG", true, true},
 	{"Index", pOpIndex, "TTG", true, false},
 	{"Divide", pOpDivide, "TTGG", true, true},
 	{"Not", pOpNot, "TG", true, true},
@@ -267,6 +268,7 @@ var c11Ops = []*c11OpSpec{
 	{"BreakPoint", pOpBreakPoint, "", false, true},
 	{"Fatal", pOpFatal, "BDT", false, true},
 	{"Timer", pOpTimer, "", true, false},
+	{"Revision", pOpRevision, "", true, false},
 	{"CreateDWordField", pOpCreateDWordField, "TTN", false, true},
 	{"CreateWordField", pOpCreateWordField, "TTN", false, true},
 	{"CreateByteField", pOpCreateByteField, "TTN", false, true},
